@@ -1,7 +1,7 @@
 (** Dispatch2.v — entry points of the models added after Dispatch.v (DER/token keys, hashes, key blinding, ...).
     [dispatch2] is what the OCaml runner calls; unknown names fall through to [dispatch]. *)
 From Coq Require Import Strings.String.
-From PatVerif Require Import Base.GoSem Model.Dispatch Model.TokenKey Model.Codecs Model.Derive Model.Ed25519 Model.Fe Model.EdPoint Model.TokenVerify Model.Ecdsa Model.BatchIssuer Base.Mem Base.Conc Model.Frontends Model.RateLimited.
+From PatVerif Require Import Base.GoSem Model.Dispatch Model.TokenKey Model.Codecs Model.Derive Model.Ed25519 Model.Fe Model.EdPoint Model.Radix16 Model.Naf Model.TokenVerify Model.Ecdsa Model.BatchIssuer Base.Mem Base.Conc Model.Frontends Model.RateLimited.
 Open Scope N_scope.
 
 Definition out_z (z : Z) : list (list byte) :=
@@ -224,6 +224,8 @@ Definition dispatch_pt (name : list byte) (a : list (list byte)) : option (list 
   else if is name "edm_public" then Some [edm_public (arg a 0)]
   else if is name "edm_sign" then Some [edm_sign (arg a 0) (arg a 1)]
   else if is name "edm_verify" then Some [fe_flag (edm_verify (arg a 0) (arg a 1) (arg a 2))]
+  else if is name "signed_radix16" then Some [map digit_byte (signed_radix16 (arg a 0))]
+  else if is name "naf" then Some [map digit_byte (naf (Z.of_N (narg a 0)) (Z.of_N (le_val (arg a 1))))]
   else None.
 
 Definition dispatch2 (name : list byte) (a : list (list byte)) : list (list byte) :=
